@@ -192,6 +192,8 @@ def _unit(prop, uid, targets, **kw):
 
 
 def units(prop, tier):
+    from spec import fsm        # the per-value enumeration of `_next` is exactly the reachable state set of the documented automaton
+    assert sorted(tuple(sorted(v)) for v in NEXTS.values()) == sorted(fsm.reach('SIV')), 'spec.fsm SIV table and contract enumeration differ'
     us = []
     if prop in ('C01', 'C12'):
         # _S2V is both the SIV MAC (C01) and a public KDF building block (C12)
